@@ -270,6 +270,19 @@ inductive GridKind where
   | cartesian | spherical | polar | cylindrical
   deriving DecidableEq, Repr
 
+section
+variable {K : Type} [Add K] [Sub K] [Mul K] [NatCast K]
+/-- volume of a grid with the given bounds, up to the constant factor of its class
+(`1`, `4 pi/3`, `pi`, `pi`) -/
+def volCoef (kind : GridKind) (b : List (K × K)) : K :=
+  match kind, b with
+  | .cartesian, _ => b.foldr (fun p acc => (p.2 - p.1) * acc) ((1:Nat) : K)
+  | .spherical, [(r0, r1)] => r1 * r1 * r1 - r0 * r0 * r0
+  | .polar, [(r0, r1)] => r1 * r1 - r0 * r0
+  | .cylindrical, [(r0, r1), (z0, z1)] => (r1 * r1 - r0 * r0) * (z1 - z0)
+  | _, _ => ((0:Nat) : K)
+end
+
 inductive Outcome where
   | ok
   | unknownSize        -- RuntimeError "Unknown size"
